@@ -30,6 +30,42 @@ def _fd_is(n, member):
     return q.refers_to_member(n.strip(casts=True), F + member)
 
 
+class WSite:
+    """a write to a descriptor as seen from a FilePersister method: the write(2) call itself, or a call to a small helper of the unit that is
+    summarised as `returns true iff write(fd-parameter, ..., SZ) == SZ` (its only write, its only return)"""
+
+    def __init__(self, node, fd, size, helper=None):
+        self.node, self.fd, self.size, self.helper = node, fd, size, helper
+        self.loc = node.loc
+
+
+def write_sites(prog, fn):
+    out = []
+    for c in fn.calls():
+        if c.callee_qp == 'write':
+            out.append(WSite(c, c.args[0], c.args[2]))
+            continue
+        if not c.callee_qp or c.callee is None or c.callee.get('n') in ('read', 'lseek', 'ftruncate', 'open', 'close'):
+            continue
+        for h in prog.fns(c.callee_qp):
+            if h.tu is not fn.tu or 'cfg' not in h.raw or len(h.param_ids) != len(c.args):
+                continue
+            ws = [x for x in h.calls() if x.callee_qp == 'write']
+            rr = [x for x in h.all_nodes() if x.k == 'ReturnStmt' and x.children]
+            if len(ws) != 1 or len(rr) != 1:
+                continue
+            fdp = ws[0].args[0].strip(casts=True)
+            if fdp.k != 'DeclRefExpr' or fdp.declid not in h.param_ids:
+                continue
+            e = rr[0].children[0].strip(casts=True)
+            if e.k == 'BinaryOperator' and e.op == '==' and any(x == ws[0] for x in e.walk()):
+                other = e.children[1] if any(x == ws[0] for x in e.children[0].walk()) else e.children[0]
+                if q.same_expr(other, ws[0].args[2]) or (other.strip(casts=True).value is not None and other.strip(casts=True).value == ws[0].args[2].strip(casts=True).value):
+                    out.append(WSite(c, c.args[h.param_ids.index(fdp.declid)], ws[0].args[2], h))
+            break
+    return out
+
+
 def append_rule(ctx, put, data_write, RID):
     """the data bytes of a record go to the END of the data file (get() repositions the same descriptor, so the current position is not the end)"""
     pc = put.cfg
@@ -48,10 +84,14 @@ def run(ctx):
     put = prog.fn1(F + 'put', sig='const FIX8::f8String &)')
     ctx.saw(put)
     pc = put.cfg
-    writes = [c for c in put.calls() if c.callee_qp == 'write']
-    wi = [c for c in writes if _fd_is(c.args[0], '_iod')]
-    wd = [c for c in writes if _fd_is(c.args[0], '_fod')]
-    ctx.need(len(wi) == 1 and len(wd) == 1, 'put(seq,bytes): expected one index write and one data write')
+    writes = write_sites(prog, put)
+    wsi = [w for w in writes if _fd_is(w.fd, '_iod')]
+    wsd = [w for w in writes if _fd_is(w.fd, '_fod')]
+    ctx.need(len(wsi) == 1 and len(wsd) == 1, 'put(seq,bytes): expected one index write and one data write')
+    wi, wd = [wsi[0].node], [wsd[0].node]
+    for w_ in wsi + wsd:
+        if w_.helper is not None:
+            ctx.saw(w_.helper)
     ins = [c for c in put.calls() if c.callee is not None and c.callee.get('n') == 'insert' and c.obj is not None and q.refers_to_member(c.obj, F + '_index')]
     ctx.need(len(ins) == 1, 'put(seq,bytes): _index.insert not found')
     # ---------------- R27.3 order
@@ -61,12 +101,18 @@ def run(ctx):
               'offset is later filled by another message')
     ctx.check(pc.dominates(pc.vertex_of(wi[0]), pc.vertex_of(ins[0])) and pc.dominates(pc.vertex_of(wd[0]), pc.vertex_of(ins[0])),
               'R27.3', F + 'put#index-map-last', ins[0].loc, 'the in-memory index is updated only after both writes')
-    for w, tag in ((wi[0], 'index'), (wd[0], 'data')):
+    for ws_, tag in ((wsi[0], 'index'), (wsd[0], 'data')):
+        w = ws_.node
         brs = q.branches(put, lambda a, _w=w: any(x == _w for x in a.walk()))
         good = False
         for br in brs:
             s = br[1].strip(casts=True)
-            if s.k == 'BinaryOperator' and s.op in ('!=', '=='):
+            if ws_.helper is not None and s == w:
+                # the helper's result is the completeness test itself
+                fail = q.atom_edge(pc, br, False)
+                rs = q.reachable_returns(pc, fail)
+                good = bool(rs) and all(q.return_value(r) == 0 for r in rs) and q.reachable_any(pc, fail, q.verts(pc, ins)) is None
+            elif ws_.helper is None and s.k == 'BinaryOperator' and s.op in ('!=', '=='):
                 other = s.children[1] if any(x == w for x in s.children[0].walk()) else s.children[0]
                 full = q.same_expr(other, w.args[2]) or (other.strip(casts=True).value is not None and other.strip(casts=True).value == w.args[2].strip(casts=True).value) \
                     or other.strip(casts=True).text().replace('(long)', '') == w.args[2].strip(casts=True).text().replace('(unsigned int)', '')
@@ -94,7 +140,7 @@ def run(ctx):
     if not reserved:
         # does the creating branch write a control record?
         created = [w for (w, m) in q.member_writes(init, F + '_wasCreated')]
-        wr0 = [c for c in init.calls() if (c.callee_qp == 'write' and _fd_is(c.args[0], '_iod')) or
+        wr0 = [w.node for w in write_sites(prog, init) if _fd_is(w.fd, '_iod')] + [c for c in init.calls() if
                (c.callee_qp == F + 'put' and q.param_type_str(c, 1) == 'const unsigned int')]
         reserved = bool(created) and bool(wr0) and any(ic.vertex_of(x) in ic.reach_from(ic.vertex_of(created[0])) or
                                                         ic.dominates(ic.vertex_of(x), ic.vertex_of(created[0])) for x in wr0)
@@ -108,12 +154,13 @@ def run(ctx):
     ctx.saw(cp)
     cc = cp.cfg
     sk = [c for c in cp.calls() if c.callee_qp == 'lseek' and _fd_is(c.args[0], '_iod')]
-    wr = [c for c in cp.calls() if c.callee_qp == 'write' and _fd_is(c.args[0], '_iod')]
+    cws = [w for w in write_sites(prog, cp) if _fd_is(w.fd, '_iod')]
+    wr = [w.node for w in cws]
     ctx.need(len(sk) == 1 and len(wr) == 1, 'control put: lseek/write on the index file not found')
     ctx.check(sk[0].args[1].strip(casts=True).value == 0 and sk[0].args[2].strip(casts=True).value == 0 and
               cc.dominates(cc.vertex_of(sk[0]), cc.vertex_of(wr[0])), 'R27.4', F + 'put#control.at0', wr[0].loc,
               'the control record is written at offset 0 (lseek(_iod, 0, SEEK_SET) dominates the write)')
-    sz = wr[0].args[2].strip(casts=True)
+    sz = cws[0].size.strip(casts=True)
     rec = cp.tu.record('FIX8::IPrec')
     ctx.check(sz.k == 'UnaryExprOrTypeTraitExpr' and sz.value is not None, 'R27.4', F + 'put#control.single-write', wr[0].loc,
               'one write of sizeof(IPrec) (%s bytes)' % sz.value)
